@@ -55,5 +55,6 @@ def run(tier="quick", seed=0, use_cache=True):
     for f in r7.findings:
         res.findings.add(f)
     res.count("MERGE-TABLE", r7.instances.get("MERGE-TABLE", 0))
-    res.rules.append("MERGE-TABLE (shared with C07)")
+    res.count("CMP-MACRO", r7.instances.get("CMP-MACRO", 0))
+    res.rules.append("MERGE-TABLE, CMP-MACRO (shared with C07)")
     return res
